@@ -10,3 +10,12 @@ theories/Parse/Dispatch_proofs.vos theories/Parse/Dispatch_proofs.vok theories/P
 theories/Props/C14.vo theories/Props/C14.glob theories/Props/C14.v.beautified theories/Props/C14.required_vo: theories/Props/C14.v theories/Base/Prelude.vo theories/Parse/Dispatch.vo theories/Parse/Dispatch_proofs.vo
 theories/Props/C14.vio: theories/Props/C14.v theories/Base/Prelude.vio theories/Parse/Dispatch.vio theories/Parse/Dispatch_proofs.vio
 theories/Props/C14.vos theories/Props/C14.vok theories/Props/C14.required_vos: theories/Props/C14.v theories/Base/Prelude.vos theories/Parse/Dispatch.vos theories/Parse/Dispatch_proofs.vos
+theories/Parse/Tree.vo theories/Parse/Tree.glob theories/Parse/Tree.v.beautified theories/Parse/Tree.required_vo: theories/Parse/Tree.v theories/Base/Prelude.vo
+theories/Parse/Tree.vio: theories/Parse/Tree.v theories/Base/Prelude.vio
+theories/Parse/Tree.vos theories/Parse/Tree.vok theories/Parse/Tree.required_vos: theories/Parse/Tree.v theories/Base/Prelude.vos
+theories/Parse/Tree_proofs.vo theories/Parse/Tree_proofs.glob theories/Parse/Tree_proofs.v.beautified theories/Parse/Tree_proofs.required_vo: theories/Parse/Tree_proofs.v theories/Base/Prelude.vo theories/Parse/Tree.vo
+theories/Parse/Tree_proofs.vio: theories/Parse/Tree_proofs.v theories/Base/Prelude.vio theories/Parse/Tree.vio
+theories/Parse/Tree_proofs.vos theories/Parse/Tree_proofs.vok theories/Parse/Tree_proofs.required_vos: theories/Parse/Tree_proofs.v theories/Base/Prelude.vos theories/Parse/Tree.vos
+theories/Props/C19.vo theories/Props/C19.glob theories/Props/C19.v.beautified theories/Props/C19.required_vo: theories/Props/C19.v theories/Base/Prelude.vo theories/Parse/Tree.vo theories/Parse/Tree_proofs.vo
+theories/Props/C19.vio: theories/Props/C19.v theories/Base/Prelude.vio theories/Parse/Tree.vio theories/Parse/Tree_proofs.vio
+theories/Props/C19.vos theories/Props/C19.vok theories/Props/C19.required_vos: theories/Props/C19.v theories/Base/Prelude.vos theories/Parse/Tree.vos theories/Parse/Tree_proofs.vos
